@@ -59,6 +59,7 @@ func runC05(c *Ctx) {
 	c05R3(c)
 	c05R4(c)
 	c05R5(c)
+	c05R5NotFound(c)
 }
 
 // moduleFuncs: every source function of the repository (all packages).
@@ -1875,6 +1876,8 @@ func c05ClosureErrRecorded(cl *ssa.Function, call ssa.CallInstruction, handle ss
 
 var c05Mutants = []Mutant{
 	// R5
+	{Name: "oci-fetch-any-open-error-is-not-found", File: "content/oci/readonlystorage.go", Old: "\t\tif errors.Is(err, fs.ErrNotExist) {\n\t\t\treturn nil, fmt.Errorf(\"%s: %s: %w\", target.Digest, target.MediaType, errdef.ErrNotFound)\n\t\t}\n\t\treturn nil, err\n\t}\n\n\treturn fp, nil", New: "\t\tif errors.Is(err, fs.ErrNotExist) || errors.Is(err, fs.ErrPermission) {\n\t\t\treturn nil, fmt.Errorf(\"%s: %s: %w\", target.Digest, target.MediaType, errdef.ErrNotFound)\n\t\t}\n\t\treturn nil, err\n\t}\n\n\treturn fp, nil", Expect: "C05.R5.not-found-only-when-absent|(*~/content/oci.ReadOnlyStorage).Fetch|"},
+	{Name: "oci-exists-false-for-any-stat-error", File: "content/oci/readonlystorage.go", Old: "\t\tif errors.Is(err, fs.ErrNotExist) {\n\t\t\treturn false, nil\n\t\t}\n\t\treturn false, err", New: "\t\treturn false, nil", Expect: "C05.R5.not-found-only-when-absent|(*~/content/oci.ReadOnlyStorage).Exists|"},
 	{Name: "proxy-exists-or-instead-of-and", File: "internal/cas/proxy.go", Old: "\tif err == nil && exists {\n\t\treturn true, nil\n\t}", New: "\tif err == nil || exists {\n\t\treturn true, nil\n\t}", Expect: "C05.R5.visibility-readers|(*~/internal/cas.Proxy).Exists|"},
 	{Name: "oci-exists-true-for-missing-blob", File: "content/oci/readonlystorage.go", Old: "\t_, err = fs.Stat(s.fsys, path)\n\tif err != nil {\n\t\tif errors.Is(err, fs.ErrNotExist) {\n\t\t\treturn false, nil\n\t\t}\n\t\treturn false, err\n\t}", New: "\t_, err = fs.Stat(s.fsys, path)\n\tif err != nil && !errors.Is(err, fs.ErrNotExist) {\n\t\treturn false, err\n\t}", Expect: "C05.R5.visibility-readers|(*~/content/oci.ReadOnlyStorage).Exists|"},
 	{Name: "memory-exists-true-for-empty-content", File: "internal/cas/memory.go", Old: "\t_, exists := m.content.Load(key)\n\treturn exists, nil", New: "\t_, exists := m.content.Load(key)\n\tif !exists && key.Size == 0 {\n\t\texists = true\n\t}\n\treturn exists, nil", Expect: "C05.R5.visibility-readers|(*~/internal/cas.Memory).Exists|"},
@@ -2106,5 +2109,106 @@ func c05R5(c *Ctx) {
 			}
 		}
 		c.Check(R, tn+"|positive-answer-has-evidence", fn.Pos(), ok, detail)
+	}
+}
+
+// ---------------------------------------------------------------- R5: absence is reported only for absence
+
+// c05R5NotFound: in the built-in stores a failed open/stat/remove is turned
+// into "not found" (an error wrapping errdef.ErrNotFound, or a nil error, i.e.
+// "absent") only on the edge where the failure IS the not-exist condition
+// (errors.Is(err, fs.ErrNotExist) / os.IsNotExist(err)); every other failure
+// surfaces as an error that does not wrap ErrNotFound.  graph.IndexAll skips
+// not-found nodes on purpose, so a transient I/O error disguised as not-found
+// silently drops a manifest's edges while the store opens successfully.
+func c05R5NotFound(c *Ctx) {
+	const R = "C05.R5.not-found-only-when-absent"
+	c.Expect(R, 4)
+	probes := map[string]bool{"os.Open": true, "os.Stat": true, "os.Lstat": true, "io/fs.Stat": true, "(io/fs.FS).Open": true, "os.Remove": true, "os.ReadFile": true, "io/fs.ReadFile": true}
+	isNotExist := func(v ssa.Value) bool {
+		n := sentinelName(v)
+		return n == "io/fs.ErrNotExist" || n == "os.ErrNotExist"
+	}
+	for _, pkg := range []string{"content/oci", "content/file", "internal/cas", "content/memory"} {
+		for _, fn := range c.P.FuncsOfPkg(pkg) {
+			if ErrResultIndex(fn.Signature) < 0 {
+				continue
+			}
+			storeOp := c07DescParam(fn) != nil // an operation on a descriptor: a nil error after a failed probe means "absent"
+			nf := map[ssa.Value]bool{}
+			AllInstrs(fn, func(in ssa.Instruction) {
+				if u, ok := in.(*ssa.UnOp); ok && sentinelOf(u) == "~/errdef.ErrNotFound" {
+					nf[u] = true
+				}
+			})
+			seen := map[string]int{}
+			for _, call := range Calls(fn, func(n string) bool { return probes[n] }) {
+				if _, isDefer := call.(*ssa.Defer); isDefer {
+					continue
+				}
+				e := ErrOf(call)
+				if e == nil {
+					continue
+				}
+				al := Aliases(e)
+				_, nonNil, ifs := NilTests(fn, al)
+				if len(ifs) == 0 {
+					continue // returned as is, or ignored: nothing is relabelled
+				}
+				// edges on which the failure is known to be "does not exist"
+				ct := newCut()
+				for _, i := range Ifs(fn) {
+					cond, t, _ := ifEdges(i)
+					cc, isCall := cond.(*ssa.Call)
+					if !isCall || len(cc.Call.Args) == 0 || !al[cc.Call.Args[0]] {
+						continue
+					}
+					switch CalleeName(cc) {
+					case "os.IsNotExist":
+						ct.Edges(t)
+					case "errors.Is":
+						if isNotExist(cc.Call.Args[1]) {
+							ct.Edges(t)
+						}
+					}
+				}
+				eq, _ := c05EqEdges(fn, func(v ssa.Value) bool { return al[v] }, isNotExist)
+				ct.Edges(eq...)
+				ct.Instr(call.(ssa.Instruction)) // a retry gives a new error value
+				bad := ""
+				relabels := false
+				for _, ne := range nonNil {
+					for _, rt := range c06ReturnsFrom(fn, ne, ct) {
+						for _, v := range rt.Vals {
+							if al[v] || al[strip(v)] {
+								continue
+							}
+							if len(nf) > 0 && derivesFromAny(v, nf, 0) {
+								bad = "the return at " + c.P.Pos(rt.Ret.Pos()) + " reports ErrNotFound"
+							}
+							if storeOp && ErrNilStatus(v, 0) == IsNil {
+								bad = "the return at " + c.P.Pos(rt.Ret.Pos()) + " reports no error (absent / done)"
+							}
+						}
+					}
+					// is there any relabelling at all behind the not-exist edge?  (instance counting)
+					for _, rt := range c06ReturnsFrom(fn, ne, newCut().Instr(call.(ssa.Instruction))) {
+						for _, v := range rt.Vals {
+							if (len(nf) > 0 && derivesFromAny(v, nf, 0) || storeOp && ErrNilStatus(v, 0) == IsNil) && !al[v] {
+								relabels = true
+							}
+						}
+					}
+				}
+				if !relabels && bad == "" {
+					continue
+				}
+				n := CalleeName(call)
+				seen[n]++
+				c.Check(R, fmt.Sprintf("%s|%s#%d", FnName(fn), n, seen[n]), call.Pos(), bad == "",
+					ifelse(bad == "", "ErrNotFound is produced only on the edge where the failure is fs.ErrNotExist; other failures are returned as they are",
+						"after "+n+" failed, "+bad+" although the failure was not established to be 'does not exist' (EACCES, EMFILE, EIO … are disguised as absence; IndexAll then silently skips the node and Predecessors loses its edges)"))
+			}
+		}
 	}
 }
